@@ -417,3 +417,9 @@ def rpa_generate_resolve(irk: bytes, other: bytes, rnd: bytes) -> bool:
         return helpers.verify_rpa_with_irk(addr, irk)
     finally:
         crypto.e, secrets.token_bytes = saved
+
+
+def e2_obligations(tier):
+    """wide-range verification conditions over the AST of the real source (vf/e2.py, vf/e2k.py)"""
+    from vf import e2k
+    return [e2k.cmac_subkeys()]
